@@ -525,6 +525,9 @@ class Gen:
         if F.last in "&%":
             F.m(" ")
         F.noparen = False
+        # c14 truncation right before this nested ')': at least d + 2 parentheses are then open at end of input
+        # (this group, the d groups around it, the argument list that contains the value)
+        F.closes.append((F.n, "group)%d" % (d + 2)))
         F.m(")")
 
     # ---------------------------------------------------------------- %str / %nrstr
@@ -1229,6 +1232,11 @@ def mutations(F):
     return out
 
 
+def open_count(what):
+    """lower bound on the number of ')' owed at end of input after a c14 truncation (1 unless inside nested groups)"""
+    return int(what[6:]) if what.startswith("group)") else 1
+
+
 def boff(s):
     """char offset -> byte offset table"""
     t = [0] * (len(s) + 1)
@@ -1292,7 +1300,7 @@ def main():
             w = rng.choice(whats)
             m, err, at, tok, what = rng.choice([x for x in ms if x[4] == w])
             t = boff(m)
-            rec = {"hex": m.encode("utf-8").hex(), "orig_hex": s.encode("utf-8").hex(), "error": err, "at": t[at], "token": tok, "what": what}
+            rec = {"hex": m.encode("utf-8").hex(), "orig_hex": s.encode("utf-8").hex(), "error": err, "at": t[at], "token": tok, "what": what, "count": open_count(what)}
             what_h[what] += 1
         out.write(json.dumps(rec) + "\n")
         k += 1
